@@ -80,18 +80,17 @@ def coq_project():
     """(Re)generate _CoqProject and Makefile when the file list changed."""
     files = coq_files()
     txt = "-R . V\n-arg -w -arg -all\n" + "\n".join(files) + "\n"
-    changed = write_if_changed(os.path.join(COQ, "_CoqProject"), txt)
-    if changed or not os.path.exists(os.path.join(COQ, "Makefile")):
-        rc, out = sh("coq_makefile -f _CoqProject -o Makefile", cwd=COQ, timeout=120)
-        if rc != 0:
-            raise RuntimeError("coq_makefile failed: " + out)
+    write_if_changed(os.path.join(COQ, "_CoqProject"), txt)
 
 
 def coq_make(targets=None, timeout=1800, jobs=16):
     """make the given .vo targets (relative to coq/). Returns (ok, log)."""
     coq_project()
     tg = " ".join(targets) if targets else ""
-    rc, out = sh(f"timeout {timeout} make -j{jobs} {tg}", cwd=COQ, timeout=timeout + 30)
+    os.makedirs(WORK, exist_ok=True)
+    # serialised: several checks (or people) may build at the same time; builds are incremental
+    rc, out = sh(f"flock {WORK}/make.lock sh -c 'coq_makefile -f _CoqProject -o Makefile >/dev/null 2>&1; "
+                 f"timeout {timeout} make -j{jobs} {tg}'", cwd=COQ, timeout=3 * timeout + 30)
     return rc == 0, out
 
 
